@@ -132,6 +132,7 @@ harness! {
     #[kani::unwind(30)]
     #[kani::stub(alloc::fmt::format, crate::stubs::fmt_stub)]
     #[kani::stub(libm::atan2, crate::stubs::k::atan2_stub)]
+#[kani::stub(f64::rem_euclid, crate::stubs::k::rem_euclid_stub)]
     /// REAL cipher: any 26-byte packet, any timestamp, any reference bit patterns (NaN / inf
     /// included): a record or an error, no panic; numbers of a record finite, track in [0, 360)
     fn total_len26(s) {
@@ -152,6 +153,7 @@ macro_rules! total_len {
             #[kani::unwind(46)]
             #[kani::stub(alloc::fmt::format, crate::stubs::fmt_stub)]
             #[kani::stub(libm::atan2, crate::stubs::k::atan2_stub)]
+#[kani::stub(f64::rem_euclid, crate::stubs::k::rem_euclid_stub)]
             #[kani::stub(rs1090::decode::flarm::btea, btea_identity)]
             /// packets of one concrete length (contents, timestamp, reference symbolic; cipher
             /// replaced by the identity — its own totality is total_len26): no panic; shorter than
@@ -184,6 +186,7 @@ harness! {
     #[kani::unwind(30)]
     #[kani::stub(alloc::fmt::format, crate::stubs::fmt_stub)]
     #[kani::stub(libm::atan2, crate::stubs::k::atan2_stub)]
+#[kani::stub(f64::rem_euclid, crate::stubs::k::rem_euclid_stub)]
     #[kani::stub(rs1090::decode::flarm::btea, btea_identity)]
     /// discrete fields for EVERY plaintext block, address, timestamp and address kind (reference
     /// fixed): address, kind, type, flags, GPS status, altitude equal the packer's bit slices
@@ -221,6 +224,7 @@ harness! {
     #[kani::unwind(30)]
     #[kani::stub(alloc::fmt::format, crate::stubs::fmt_stub)]
     #[kani::stub(libm::atan2, crate::stubs::k::atan2_stub)]
+#[kani::stub(f64::rem_euclid, crate::stubs::k::rem_euclid_stub)]
     #[kani::stub(rs1090::decode::flarm::btea, btea_identity)]
     /// discrete fields for EVERY plaintext block, address, timestamp and address kind (reference
     /// fixed): address, kind, type, flags, GPS status, altitude equal the packer's bit slices
@@ -271,6 +275,7 @@ macro_rules! part26 {
             #[kani::unwind(30)]
             #[kani::stub(alloc::fmt::format, crate::stubs::fmt_stub)]
             #[kani::stub(libm::atan2, crate::stubs::k::atan2_stub)]
+#[kani::stub(f64::rem_euclid, crate::stubs::k::rem_euclid_stub)]
             #[kani::stub(rs1090::decode::flarm::btea, btea_identity)]
             fn $name(s) {
                 let c: [u32; 5] = [0x1234_5678, 0x0abc_def0, 0x4fed_cba9, 0x0765_4321, 0x0357_9bdf];
@@ -298,6 +303,20 @@ macro_rules! part26 {
                     finite_and_track(f);
                 }
                 core::mem::forget(r);
+                // native confirmation of a track-range counterexample: under Kani the two atan2 answers are arbitrary (contract
+                // stub), so the tape's velocity bytes need not show the deviation with the real libm; re-run the same skeleton
+                // (timestamp, address) over every pair of small velocity samples (-12..=12 in each of the four components)
+                #[cfg(not(kani))]
+                if m[3] == 0xffff_ffff && m[4] == 0xffff_ffff {
+                    for a in -12i32..=12 { for b in -12i32..=12 { for c2 in -12i32..=12 { for d in -12i32..=12 {
+                        let mut w = words;
+                        w[2] = (w[2] & 0x3fff_ffff) | 0x4000_0000;
+                        w[3] = (a as u8 as u32) | ((c2 as u8 as u32) << 8);
+                        w[4] = (b as u8 as u32) | ((d as u8 as u32) << 8);
+                        let msg = packet(addr, 0x10, &cipher_words(&w, ts, addr), [0, 0]);
+                        if let Ok(f) = Flarm::from_record(ts, &reference, &msg[..]) { finite_and_track(&f); }
+                    } } } }
+                }
             }
         }
     };
@@ -336,6 +355,7 @@ macro_rules! position_unit {
             #[kani::unwind(8)]
             #[kani::stub(alloc::fmt::format, crate::stubs::fmt_stub)]
             #[kani::stub(libm::atan2, crate::stubs::k::atan2_stub)]
+#[kani::stub(f64::rem_euclid, crate::stubs::k::rem_euclid_stub)]
             #[kani::stub(rs1090::decode::flarm::btea, btea_identity)]
             #[kani::stub(lat_kernel, rs1090::decode::flarm::Flarm::decode_latitude)]
             #[kani::stub(lon_kernel, rs1090::decode::flarm::Flarm::decode_longitude)]
@@ -453,6 +473,7 @@ macro_rules! cipher_word {
             #[kani::solver(kissat)]
             #[kani::stub(alloc::fmt::format, crate::stubs::fmt_stub)]
             #[kani::stub(libm::atan2, crate::stubs::k::atan2_stub)]
+#[kani::stub(f64::rem_euclid, crate::stubs::k::rem_euclid_stub)]
             /// REAL cipher vs textbook XXTEA decryption + independent key schedule, word $i of the
             /// block, for every ciphertext block, timestamp (both key tables) and address
             fn $name(s) {
